@@ -189,9 +189,9 @@ PROP = Prop(
           "(min / mean / mean-min classes, receiver and argument of possibly different class). Geometry, hash strategy and streams from the case RNG. "
           "Non-trivial = both streams non-empty; distinct by hash of (parameters, streams)."),
     workloads=[
-        Workload("bloom", wl_bloom, quick=900, thorough=60000),
-        Workload("counting", wl_counting, quick=500, thorough=40000),
-        Workload("join", wl_join, quick=700, thorough=50000),
+        Workload("bloom", wl_bloom, quick=900, thorough=180000),
+        Workload("counting", wl_counting, quick=500, thorough=120000),
+        Workload("join", wl_join, quick=700, thorough=150000),
     ],
     assumptions=["unsaturated states only, as the statement says (cases whose combined array is completely set are skipped and counted)"],
     required=["unions_compared", "joins_compared", "join_argument_with_zero_total_but_nonzero_cells", "aliasing_checks"],
